@@ -85,7 +85,15 @@ func printParse(c *h.Ctx, class string, rm *ref.Msg) string {
 	b1, p1 := completedBytes(m, fill)
 	b2, p3 := completedBytes(ms[0], fill)
 	c.Ops(6)
-	if p1 != p3 || !sameBytes(b1, b2) || (p1 == "" && len(b1) == 0) {
+	complete := true // every variable received a completion value (huge ASCII lower bounds are left unfilled)
+	if rm.Item != nil {
+		for _, v := range rm.Item.Variables() {
+			if _, ok := fill[v]; !ok {
+				complete = false
+			}
+		}
+	}
+	if p1 != p3 || !sameBytes(b1, b2) || (complete && p1 == "" && len(b1) == 0) {
 		c.Fail(class+"-completed-bytes-differ", in, fmt.Sprintf("original: %x %s; re-parsed: %x %s", truncB(b1, 80), p1, truncB(b2, 80), p3))
 		return "bad"
 	}
@@ -177,6 +185,35 @@ func init() {
 					nameTemplate(n)
 					rm := &ref.Msg{Stream: 1, Function: 1, W: 1, Dir: "H->E", Item: n}
 					c.Case(0, true, printParse(c, "ellipses", rm))
+				}})
+			// ellipsis-centred templates: every list shape of the C10 scope (ellipsis before AND after nested lists with ellipses)
+			es := NewTreeScope(c10Atoms(), 7, 3, 4)
+			if tier != "thorough" {
+				es = NewTreeScope(c10Atoms(), 6, 3, 4)
+			}
+			sp = append(sp, h.Space{Name: "ellipsis-templates", Count: es.Count(),
+				Describe: func(i uint64) interface{} { n := es.Nth(i); nameTemplate(n); return ref.Print(n) },
+				Run: func(c *h.Ctx, i uint64) {
+					n := es.Nth(i)
+					if !nameTemplate(n) || len(ellipsisNames(n)) == 0 {
+						c.Case(0, false, "no-ellipsis")
+						return
+					}
+					c.Case(0, true, printParse(c, "ellipsis", &ref.Msg{Stream: 1, Function: 1, W: 0, Dir: "H->E", Item: n}))
+				}})
+			// ASCII variables with large bounds (the bounds are data of the template, not a check on a literal)
+			bnds := []int{0, 1, 255, 256, 65535, 65536, 16777214, 16777215, 16777216, 16777217, 1 << 31, 1<<31 + 1, 1 << 40, 1<<62 - 1, 1 << 62}
+			sp = append(sp, h.Space{Name: "ascii-variable-bounds", Count: uint64(len(bnds) * len(bnds)),
+				Describe: func(i uint64) interface{} {
+					return fmt.Sprintf("<A[%d..%d] v0> / <A[%d..] v0>", bnds[i/uint64(len(bnds))], bnds[i%uint64(len(bnds))], bnds[i/uint64(len(bnds))])
+				},
+				Run: func(c *h.Ctx, i uint64) {
+					lo, hi := bnds[i/uint64(len(bnds))], bnds[i%uint64(len(bnds))]
+					out := "skip"
+					if lo <= hi {
+						out = printParse(c, "ascii-bounds", &ref.Msg{Stream: 1, Function: 1, W: 0, Dir: "H->E", Item: ref.List(ref.AsciiVar("v0", lo, hi), ref.AsciiVar("v1", hi, -1))})
+					}
+					c.Case(0, lo <= hi, out)
 				}})
 			// strings: every 1- and 2-character string over ASCII 0..127, 3-character strings over 12 characters
 			alpha3 := []byte{'"', '\\', ' ', '/', 0x00, 0x7F, 'a', '\n', '\r', '\t', '<', '.'}
